@@ -130,13 +130,6 @@ Ltac pre_tac :=
 Ltac refute W :=
   exists W; split; [ pre_tac | vm_compute; let H := fresh "H" in intro H; first [exact H | discriminate H] ].
 
-(* KNOWN (DESIGN.md section 6): the mask _mm256_set1_epi8((1<<N)-1) has the sign bit of every 32-bit lane
-   clear for N < 8, so _mm256_maskstore_ps stores nothing; the body stores the first N lanes *)
-Definition W_avx2_mask_storeu_ps : state Z :=
-  [("N", ASize 3); ("dst", AMem [] [0; 0; 0] [0; 0; 0; 0; 0]); ("src", AReg [1; 2; 3; 4; 5; 6; 7; 8])].
-Lemma refuted_avx2_mask_storeu_ps : instr_refuted Z ZOps lane_any instr_avx2_mask_storeu_ps.
-Proof. refute W_avx2_mask_storeu_ps. Qed.
-
 (* _mm512_mask_fmadd_ps(A, k, B, C) copies A (not C) into the lanes whose mask bit is clear *)
 Definition W_mm512_mask_fmadd_ps : state Z :=
   [("N", ASize 1); ("A", AReg (rep 16 2)); ("B", AReg (rep 16 3)); ("C", AReg (rep 16 5))].
@@ -191,3 +184,22 @@ Definition W_mm256_add_epi16 : state Z :=
   [("out", AReg (rep 16 0)); ("x", AReg (rep 16 65535)); ("y", AReg (rep 16 1))].
 Lemma refuted_mm256_add_epi16 : instr_refuted Z ZOps lane_u16 instr_mm256_add_epi16.
 Proof. refute W_mm256_add_epi16. Qed.
+
+(* ------------------------------------------------------------------ the extra hypotheses of the partial statements are satisfiable *)
+
+Example when_satisfiable_mm512_mask_add_ps :
+  exists st, pre_ok Z lane_any instr_mm512_mask_add_ps st /\
+             eval_bexpr Z [] st (BCmp CLe (IVar "N") (ILit 30)) = Some true.
+Proof.
+  exists [("N", ASize 30); ("out", AReg (rep 16 0)); ("x", AReg (rep 16 1)); ("y", AReg (rep 16 1))].
+  split; [pre_tac | reflexivity].
+Qed.
+
+Example prefix_satisfiable :
+  (exists n, pre_ok Z lane_any instr_mm512_mask_fmadd_ps W_mm512_mask_fmadd_ps /\ lookup "N" W_mm512_mask_fmadd_ps = Some (ASize n)) /\
+  (exists n, pre_ok Z lane_any instr_mm512_maskz_loadu_ps W_mm512_maskz_loadu_ps /\ lookup "N" W_mm512_maskz_loadu_ps = Some (ASize n)) /\
+  (exists n, pre_ok Z lane_any instr_mm512_mask_set1_ps W_mm512_mask_set1_ps /\ lookup "N" W_mm512_mask_set1_ps = Some (ASize n)) /\
+  (exists n, pre_ok Z lane_any instr_mm256_prefix_load_ps W_mm256_prefix_load_ps /\ lookup "bound" W_mm256_prefix_load_ps = Some (ASize n)).
+Proof.
+  repeat split; try (exists 1; split; [pre_tac | reflexivity]).
+Qed.
